@@ -292,6 +292,8 @@ Definition sstep (st : option sstate * option sstate) (o : op * bool)
       | OSkip => let (a, c') := s_advance c in
                  (put c', SoZ a (match s_value c with Some _ => true | None => false end))
       | OUint | OMeta => (st, SoOpen)
+      (* a text iterator offers its conversion to 's' (format list), with or without target *)
+      | OMetaS => (st, match c with CStr _ _ _ => SoK true | _ => SoNone end)
       end
   end.
 Fixpoint srun (st : option sstate * option sstate) (ops : list (op * bool)) : list sout :=
